@@ -512,3 +512,165 @@ Proof.
         apply select_positions_ext. intros k Hk. f_equal. apply bool_eq_iff.
         rewrite memb_In, (norm_axes_map _ _ _ En'). now apply Key.
 Qed.
+
+(* acceptance of squeeze *)
+Lemma norm_axes_all_some n l : (forall z, In z l -> norm_axis n z <> None) -> exists ks, norm_axes n l = Some ks.
+Proof.
+  intros H. destruct (norm_axes n l) as [ks|] eqn:E. eauto.
+  apply norm_axes_none in E as (z & Hz & Ez). exfalso. now apply (H z).
+Qed.
+
+Lemma NoDup_map_filter {X Y} (f : X -> Y) (P : X -> bool) l : NoDup (map f l) -> NoDup (map f (filter P l)).
+Proof.
+  induction l as [|a l IH]; simpl; intros ND; auto. inversion ND; subst.
+  destruct (P a); simpl; auto. constructor; auto.
+  intro Hc. apply H1. apply in_map_iff in Hc as (x & E & Hx). apply filter_In in Hx as [Hx _].
+  apply in_map_iff. eauto.
+Qed.
+
+Lemma norm_axes_map_some n : forall l ks, norm_axes n l = Some ks -> map (norm_axis n) l = map Some ks.
+Proof.
+  induction l as [|z l IH]; intros ks E; simpl in E.
+  - inversion E; subst. reflexivity.
+  - destruct (norm_axis n z) as [k|] eqn:Ez; try discriminate.
+    destruct (norm_axes n l) as [r|] eqn:El; try discriminate. inversion E; subst. simpl. rewrite Ez. f_equal. auto.
+Qed.
+
+Theorem squeeze_legal_accepted_partial sh arg :
+  sh <> [] -> legal_squeeze sh arg -> fwd_squeeze sh arg <> None.
+Proof.
+  intros Hne L. assert (Hn : length sh <> 0) by (destruct sh; simpl; congruence).
+  unfold fwd_squeeze, legal_squeeze in *. destruct arg as [|z|l]; cbn [sq_dims] in L.
+  - destruct (Nat.eqb_spec (length sh) 0); try lia. unfold np_squeeze. discriminate.
+  - destruct (Nat.eqb_spec (length sh) 0); try lia. destruct L as [R _].
+    specialize (R z (or_introl eq_refl)). rewrite <- norm_wrap in R by auto.
+    destruct (norm_axis (length sh) z) as [k|] eqn:Ez; try contradiction.
+    destruct (Nat.eqb_spec (nth k sh 0) 1) as [E1|E1]; try discriminate.
+    unfold np_squeeze. cbn [norm_axes]. rewrite Ez. cbn [nodupb memb existsb negb andb forallb]. rewrite E1. discriminate.
+  - destruct L as [R ND].
+    destruct (norm_axes_all_some (length sh) l) as (ks & En).
+    { intros z Hz. rewrite norm_wrap by auto. now apply R. }
+    rewrite En. set (P := fun z => match norm_axis (length sh) z with Some k => nth k sh 0 =? 1 | None => false end).
+    destruct (filter P l) as [|z0 l0] eqn:Fl; try discriminate. rewrite <- Fl.
+    destruct (norm_axes_filter (length sh) P l ks En) as (ks' & En').
+    unfold np_squeeze. rewrite En'.
+    assert (Nd : nodupb ks' = true).
+    { apply nodupb_NoDup. apply (NoDup_map_inv Some). rewrite <- (norm_axes_map_some _ _ _ En').
+      apply NoDup_map_filter. erewrite map_ext. exact ND. intros z. now apply norm_wrap. }
+    assert (Fa : forallb (fun k => nth k sh 0 =? 1) ks' = true).
+    { apply forallb_forall. intros k Hk. apply (norm_axes_map _ _ _ En') in Hk as (z & Hz & Ez).
+      apply filter_In in Hz as [_ Pz]. unfold P in Pz. now rewrite Ez in Pz. }
+    rewrite Nd, Fa. discriminate.
+Qed.
+
+Theorem squeeze_accepted_in_range_partial sh arg :
+  sh <> [] -> fwd_squeeze sh arg <> None ->
+  match sq_dims arg with None => True | Some l => forall z, In z l -> wrap_dim (length sh) z <> None end.
+Proof.
+  intros Hne A. assert (Hn : length sh <> 0) by (destruct sh; simpl; congruence).
+  unfold fwd_squeeze in A. destruct arg as [|z|l]; cbn [sq_dims]; auto.
+  - destruct (Nat.eqb_spec (length sh) 0); try lia. intros z' [<-|[]]. rewrite <- norm_wrap by auto.
+    destruct (norm_axis (length sh) z); congruence.
+  - destruct (norm_axes (length sh) l) as [ks|] eqn:En; try contradiction.
+    intros z Hz. rewrite <- norm_wrap by auto. apply (norm_axes_spec _ _ _ En). auto.
+Qed.
+
+(* duplicates are only noticed when the named axis has size 1: squeeze((0,0)) of a (2,) tensor is accepted *)
+Theorem squeeze_dup_refuted :
+  fwd_squeeze [2] (SqTuple [0;0]%Z) <> None /\ ~ legal_squeeze [2] (SqTuple [0;0]%Z).
+Proof.
+  split. vm_compute. discriminate. intros [_ ND]. cbn in ND. inversion ND; subst. apply H1. now left.
+Qed.
+
+(* 0-d tensors: an int dim is never validated, a tuple dim is always rejected *)
+Theorem squeeze_0d_refuted :
+  (fwd_squeeze [] (SqInt 5) <> None /\ ~ legal_squeeze [] (SqInt 5)) /\
+  (legal_squeeze [] (SqTuple [0%Z]) /\ fwd_squeeze [] (SqTuple [0%Z]) = None).
+Proof.
+  split; split.
+  - vm_compute. discriminate.
+  - intros [R _]. apply (R 5%Z). now left. reflexivity.
+  - split. intros z [<-|[]]. discriminate. cbn. repeat constructor. intros [].
+  - reflexivity.
+Qed.
+
+(* ------------------------------------------------------------------ unsqueeze *)
+Lemma norm_axis_in_range m z : m <> 0 ->
+  (norm_axis m z <> None <-> (- Z.of_nat m <= z < Z.of_nat m)%Z).
+Proof.
+  intros Hm. rewrite norm_wrap by auto. split.
+  - intros Hn. destruct (wrap_dim m z) as [k|] eqn:E; try contradiction. apply wrap_dim_some in E as [R _]. cbn zeta in R. lia.
+  - intros R E. apply wrap_dim_none in E. cbn zeta in E. lia.
+Qed.
+
+Lemma norm_axis_val m z k : norm_axis m z = Some k -> k = Z.to_nat (z mod Z.of_nat m).
+Proof.
+  intros E. assert (Hm : m <> 0). { intro; subst. rewrite norm_axis_0d in E. discriminate. }
+  rewrite norm_wrap in E by auto. apply wrap_dim_some in E as [_ ->]. cbn zeta. f_equal. f_equal. lia.
+Qed.
+
+Lemma norm_axes_vals m : forall l ks, norm_axes m l = Some ks -> ks = map (fun z => Z.to_nat (z mod Z.of_nat m)) l.
+Proof.
+  induction l as [|z l IH]; intros ks E; simpl in E.
+  - now inversion E.
+  - destruct (norm_axis m z) as [k|] eqn:Ez; try discriminate.
+    destruct (norm_axes m l) as [r|] eqn:El; try discriminate. inversion E; subst. simpl. f_equal.
+    now apply norm_axis_val. auto.
+Qed.
+
+Lemma NoDup_to_nat_mod m l : (0 < m)%Z ->
+  (NoDup (map (fun z => Z.to_nat (z mod m)) l) <-> NoDup (map (fun z => (z mod m)%Z) l)).
+Proof.
+  intros Hm. induction l as [|z l IH]; simpl. split; constructor.
+  split; intros ND; inversion ND; subst; constructor; try (now apply IH).
+  - intro Hc. apply H1. apply in_map_iff in Hc as (x & E & Hx). apply in_map_iff. exists x. split; auto. now rewrite E.
+  - intro Hc. apply H1. apply in_map_iff in Hc as (x & E & Hx). apply in_map_iff. exists x. split; auto.
+    pose proof (Z.mod_pos_bound x m Hm). pose proof (Z.mod_pos_bound z m Hm). lia.
+Qed.
+
+Theorem unsqueeze_accepts_iff_legal sh arg : fwd_unsqueeze sh arg <> None <-> legal_unsqueeze sh arg.
+Proof.
+  unfold fwd_unsqueeze, np_expand_dims, legal_unsqueeze. generalize (unsq_axes arg). intros l.
+  replace (Z.of_nat (length sh + length l)) with (Z.of_nat (length l + length sh)) by lia.
+  set (m := length l + length sh).
+  destruct (Nat.eq_dec (length l) 0) as [El|El].
+  { destruct l; try discriminate. simpl. split. intros _. split. intros z []. constructor. intros _. discriminate. }
+  assert (Hm : m <> 0) by (unfold m; lia).
+  split.
+  - destruct (norm_axes m l) as [ks|] eqn:En; try contradiction.
+    destruct (nodupb ks) eqn:Nd; simpl; try contradiction. intros _.
+    destruct (norm_axes_spec _ _ _ En) as (_ & _ & _ & Hr). split.
+    + intros z Hz. apply norm_axis_in_range; auto.
+    + apply nodupb_NoDup in Nd. rewrite (norm_axes_vals _ _ _ En) in Nd. apply NoDup_to_nat_mod in Nd; auto. lia.
+  - intros [R ND]. destruct (norm_axes_all_some m l) as (ks & En).
+    { intros z Hz. apply norm_axis_in_range; auto. }
+    rewrite En. assert (Nd : nodupb ks = true).
+    { apply nodupb_NoDup. rewrite (norm_axes_vals _ _ _ En). apply NoDup_to_nat_mod; auto. lia. }
+    rewrite Nd. discriminate.
+Qed.
+
+Theorem unsqueeze_matches_spec sh arg op : fwd_unsqueeze sh arg = Some op -> spec_unsqueeze sh arg op.
+Proof.
+  unfold fwd_unsqueeze, spec_unsqueeze. set (l := unsq_axes arg). intros F.
+  apply np_expand_dims_some in F as (ks & En & ND & -> & Cf). cbn [g_in g_out reshape_op].
+  replace (length sh + length l) with (length l + length sh) by lia.
+  set (m := length l + length sh) in *. set (mask := mask_of m ks) in *. set (out := fill_mask mask 1 sh).
+  destruct (fill_mask_fits mask sh Cf) as [Fit Drop]. fold out in Fit, Drop.
+  assert (Lo : length out = m). { apply sq_fits_length in Fit. unfold mask in Fit. now rewrite mask_of_length in Fit. }
+  assert (Np : forall k, k < m -> existsb (fun z => (z mod Z.of_nat m =? Z.of_nat k)%Z) l = nth k mask false).
+  { intros k Hk. unfold mask. rewrite mask_of_nth by auto. apply bool_eq_iff.
+    rewrite memb_In, (norm_axes_map _ _ _ En), existsb_exists. split.
+    - intros (z & Hz & E). apply Z.eqb_eq in E. exists z. split; auto.
+      destruct (norm_axis m z) as [k'|] eqn:Ez.
+      + apply norm_axis_val in Ez. subst k'. f_equal. lia.
+      + exfalso. apply (norm_axes_spec _ _ _ En) in Hz. contradiction.
+    - intros (z & Hz & Ez). exists z. split; auto. apply norm_axis_val in Ez. apply Z.eqb_eq.
+      assert (0 < Z.of_nat m)%Z by lia. pose proof (Z.mod_pos_bound z (Z.of_nat m) H). lia. }
+  split; auto. split; auto. split; [|split].
+  - intros k Hk E. rewrite Np in E by auto. now apply (sq_fits_nth mask).
+  - transitivity (drop_mask mask out); [|exact Drop].
+    rewrite drop_mask_select by (unfold mask; now rewrite mask_of_length, Lo).
+    apply select_positions_ext. intros k Hk. rewrite Lo in Hk. now rewrite Np.
+  - apply reshape_op_order_preserving.
+    transitivity (size (drop_mask mask out)). now rewrite Drop. now apply size_drop_mask.
+Qed.
